@@ -41,6 +41,11 @@ CHECKS = {
             "For every catalogued stochastic transform (found by walking the transform packages; uncovered classes are listed in the evidence) and compositions (compose, random-apply, patchwise, scheduled; nested to depth 2 quick / 3 thorough), all histories construct(g).call^{0..2}.[perturb].set_rng(s).call^3.set_rng(s).call^3 over two global RNG states and three seeds are executed on the real objects; the observation (outputs + context) for a state (spec, seed, inputs since injection) must be identical along every history, re-injection must replay, and the global NumPy/Torch/Python RNG states must be bit-identical across every post-injection call.",
             "Trusted: the catalogue's constructor arguments/inputs; image content and sizes beyond the catalogue are not covered; calls that raise consistently are counted, not judged here.",
             "DESIGN.md section 5 C07"),
+    "C09": ("E1-choice", "exploration",
+            "exhaustive product of stacks x transform specs x collators x worker sets; generator graph walk + stream-window comparison on the real objects",
+            "For every catalogued transform and composition placed in seven stack shapes (transform / multi-view / subset / concat / nested / interleaved-concat / other-item wrappers), the segmentation and ready-made multi-view wrappers, five collator registrations, worker counts 2-3 and two base seeds: simulated workers (identical copies as after fork, np.random.seed(worker seed), worker_init_fn(rank)) are built from the real classes; every numpy Generator reachable from the stack is found by a graph walk; the next 16 draws of each must share no length-3 window between differently seeded workers (this also catches a generator copied at fork) and be bit-identical for equal seeds.",
+            "Trusted: the graph walk (attributes, lists, dicts, dataclasses, partials of kappadata objects); user-owned containers and per-call OS-entropy generators are outside the observation; quick tier rotates which specs go on the non-basic stacks (VERIF_SEED).",
+            "DESIGN.md section 5 C09"),
     "C10": ("E1-choice", "exploration",
             "stateless choice-point exploration: the collator's generator is replaced by ChoiceRng and every answer sequence within a deviation bound is executed on the real collator",
             "All constructor combinations the constructor accepts (apply/lamb/shuffle modes x mixup-only/cutmix-only/both with two splits), batch sizes 1..4, several image shapes, one-hot and binary scalar labels, three modes, with/without context: every execution with <=2 (quick) / <=3 (thorough) non-default RNG answers (unit draws on both sides of each threshold, 4 beta values, every box centre, every permutation) is run; partner and weight are decoded independently from id-coded pixels and from the label rows and must agree with each other, with the shuffle mode and with the weight reported in the context. The MAE fine-tune collator is explored with the full product.",
